@@ -11,6 +11,7 @@ EXTENDS Integers, Sequences, FiniteSets, TLC
 CONSTANTS K,             \* bucket size / answer size (20)
           Stale,         \* staleness threshold (ms)
           RefreshKnown,  \* TRUE iff add() lets an already-known node through the IP check (deviation #8a)
+          RekeySorted,   \* TRUE iff reset_id re-adds the nodes in least-recently-seen order (fix 19); FALSE = in iteration order
           DistOp(_, _),  \* bucket distance of two ids
           XorLt(_, _, _),\* XorLt(a, b, t): a strictly closer to t than b
           Pfx(_)         \* 21-bit prefix class of an id
@@ -60,7 +61,13 @@ Remove(st, id) ==
 
 RECURSIVE AddAll(_, _)
 AddAll(st, q) == IF q = <<>> THEN st ELSE AddAll(Add(st, Head(q)).st, Tail(q))
-ResetId(st, nid) == AddAll([id |-> nid, b |-> <<>>, now |-> st.now], Flat(st))
+\* reset_id: every node is re-bucketed around the new id.  Nodes of different old buckets can meet in one new bucket, and a
+\* bucket evicts its FIRST entry: they are re-added oldest first (stable sort on last_seen), so every bucket stays in recency order
+RECURSIVE InsSeen(_, _)
+InsSeen(acc, e) == IF acc = <<>> THEN <<e>> ELSE IF e.seen < Head(acc).seen THEN <<e>> \o acc ELSE <<Head(acc)>> \o InsSeen(Tail(acc), e)
+RECURSIVE SortBySeen(_)
+SortBySeen(q) == IF q = <<>> THEN <<>> ELSE InsSeen(SortBySeen(SubSeq(q, 1, Len(q) - 1)), q[Len(q)])
+ResetId(st, nid) == AddAll([id |-> nid, b |-> <<>>, now |-> st.now], IF RekeySorted THEN SortBySeen(Flat(st)) ELSE Flat(st))
 Advance(st, ms) == [st EXCEPT !.now = st.now + ms]
 
 (* ------------------------------ ClosestNodes --------------------------- *)
@@ -100,7 +107,11 @@ C12_IpRule(st) == \A a, b \in All(st) : (a # b /\ a.ip = b.ip) =>
 \* --- C12 step property: what an add may evict (pre-state st, added entry e, post-state n2)
 C12_EvictOnlyStaleHead(st, e, n2) ==
    \A x \in All(st) : (x.id # e.id /\ ~\E y \in All(n2) : y.id = x.id) =>
-        LET d == DistOp(st.id, x.id) IN x = Bucket(st, d)[1] /\ st.now - x.seen > Stale /\ Len(Bucket(st, d)) = K
+        \* the victim is THE least recently seen entry of its (full) bucket - read off the entries' last_seen, not off their
+        \* position: an implementation whose bucket order has come apart from the recency order evicts the wrong entry
+        LET d == DistOp(st.id, x.id) B == Bucket(st, d) IN
+          /\ st.now - x.seen > Stale /\ Len(B) = K
+          /\ \A i \in 1..Len(B) : B[i].seen >= x.seen
 \* --- C14 (table half): re-adding a node that is in the table (same id, same address) refreshes last_seen
 C14_RefreshOnReAdd(st, e, n2) ==
    (\E x \in All(st) : x.id = e.id /\ x.ip = e.ip /\ x.port = e.port) =>
